@@ -505,7 +505,6 @@ func c07Window(rc *simrt.RunCtx) {
 	rc.Fault(fmt.Sprintf("forged-ack-nack-s=%d", s))
 }
 
-
 // c07Flood: non-final chunks without end.
 func c07Flood(rc *simrt.RunCtx) {
 	toServer := rc.Idx()%2 == 0
